@@ -1,7 +1,7 @@
 //! Verification shim for `web-time` (DESIGN.md 2.2).
 //!
-//! `Instant` is a `u64` count of nanoseconds; `Instant::now()` returns whatever the
-//! harness last stored with `verif::set_now`.  Arithmetic follows the documented
+//! `Instant` is a `(secs, nanos)` pair; `Instant::now()` returns whatever the
+//! harness last stored with `verif::set_now_parts` / `verif::set_now`.  Arithmetic follows the documented
 //! contract of `std::time::Instant` (`checked_*` return `None` on overflow/underflow,
 //! `+`/`-` panic on it, `duration_since` saturates at zero).
 #![allow(clippy::all)]
@@ -10,17 +10,23 @@ pub use core::time::Duration;
 use core::ops::{Add, AddAssign, Sub, SubAssign};
 
 pub mod verif {
-    static mut NOW_NS: u64 = 1 << 40;
+    //! Harness-facing clock control.  `Instant` is a `(secs, nanos)` pair like
+    //! `std::time::Instant`'s `Timespec`, so that conversions to `Duration` need no
+    //! division (a 64-bit division by 10^9 of a symbolic value stalls the SAT back end).
+    static mut NOW: super::Instant = super::Instant { secs: 1 << 20, nanos: 0 };
     static mut SYS_NS: u64 = 1_700_000_000_000_000_000;
-    /// Set the value returned by `Instant::now()` (nanoseconds).
+    /// Set the value returned by `Instant::now()`.
+    pub fn set_now_parts(secs: u64, nanos: u32) {
+        assert!(nanos < 1_000_000_000);
+        unsafe { NOW = super::Instant { secs, nanos } }
+    }
+    /// Set the value returned by `Instant::now()` (nanoseconds; divides, so prefer
+    /// `set_now_parts` for symbolic values).
     pub fn set_now(ns: u64) {
-        unsafe { NOW_NS = ns }
+        set_now_parts(ns / 1_000_000_000, (ns % 1_000_000_000) as u32)
     }
-    pub fn now_ns() -> u64 {
-        unsafe { NOW_NS }
-    }
-    pub fn advance(ns: u64) {
-        unsafe { NOW_NS = NOW_NS.checked_add(ns).expect("shim clock overflow") }
+    pub fn now() -> super::Instant {
+        unsafe { NOW }
     }
     pub fn set_system_now(ns: u64) {
         unsafe { SYS_NS = ns }
@@ -28,11 +34,15 @@ pub mod verif {
     pub fn system_now_ns() -> u64 {
         unsafe { SYS_NS }
     }
-    pub fn instant_from_ns(ns: u64) -> super::Instant {
-        super::Instant(ns)
+    pub fn instant_from_parts(secs: u64, nanos: u32) -> super::Instant {
+        assert!(nanos < 1_000_000_000);
+        super::Instant { secs, nanos }
     }
-    pub fn instant_as_ns(i: super::Instant) -> u64 {
-        i.0
+    pub fn instant_parts(i: super::Instant) -> (u64, u32) {
+        (i.secs, i.nanos)
+    }
+    pub fn instant_from_ns(ns: u64) -> super::Instant {
+        instant_from_parts(ns / 1_000_000_000, (ns % 1_000_000_000) as u32)
     }
 }
 
@@ -48,18 +58,30 @@ fn ns_dur(n: u64) -> Duration {
     Duration::new(n / 1_000_000_000, (n % 1_000_000_000) as u32)
 }
 
+/// Field order matters: the derived ordering is lexicographic on (secs, nanos).
 #[derive(Clone, Copy, Debug, PartialEq, Eq, PartialOrd, Ord, Hash)]
-pub struct Instant(u64);
+pub struct Instant {
+    secs: u64,
+    nanos: u32,
+}
 
 impl Instant {
     pub fn now() -> Instant {
-        Instant(verif::now_ns())
+        verif::now()
     }
     pub fn duration_since(&self, earlier: Instant) -> Duration {
         self.checked_duration_since(earlier).unwrap_or_default()
     }
     pub fn checked_duration_since(&self, earlier: Instant) -> Option<Duration> {
-        self.0.checked_sub(earlier.0).map(ns_dur)
+        if *self < earlier {
+            return None;
+        }
+        let (secs, nanos) = if self.nanos >= earlier.nanos {
+            (self.secs - earlier.secs, self.nanos - earlier.nanos)
+        } else {
+            (self.secs - earlier.secs - 1, self.nanos + 1_000_000_000 - earlier.nanos)
+        };
+        Some(Duration::new(secs, nanos))
     }
     pub fn saturating_duration_since(&self, earlier: Instant) -> Duration {
         self.checked_duration_since(earlier).unwrap_or_default()
@@ -68,10 +90,23 @@ impl Instant {
         Instant::now().duration_since(*self)
     }
     pub fn checked_add(&self, d: Duration) -> Option<Instant> {
-        dur_ns(d).and_then(|n| self.0.checked_add(n)).map(Instant)
+        let mut secs = self.secs.checked_add(d.as_secs())?;
+        let mut nanos = self.nanos + d.subsec_nanos();
+        if nanos >= 1_000_000_000 {
+            nanos -= 1_000_000_000;
+            secs = secs.checked_add(1)?;
+        }
+        Some(Instant { secs, nanos })
     }
     pub fn checked_sub(&self, d: Duration) -> Option<Instant> {
-        dur_ns(d).and_then(|n| self.0.checked_sub(n)).map(Instant)
+        let mut secs = self.secs.checked_sub(d.as_secs())?;
+        let nanos = if self.nanos >= d.subsec_nanos() {
+            self.nanos - d.subsec_nanos()
+        } else {
+            secs = secs.checked_sub(1)?;
+            self.nanos + 1_000_000_000 - d.subsec_nanos()
+        };
+        Some(Instant { secs, nanos })
     }
 }
 impl Add<Duration> for Instant {
